@@ -1,9 +1,13 @@
 package props
 
 import (
+	"bytes"
 	"encoding/json"
 	"fmt"
+	"os"
+	"path/filepath"
 	"strings"
+	"verif/cli"
 
 	"verif/ev"
 	"verif/mc"
@@ -263,6 +267,37 @@ func runC08(e *Env) {
 		e.R.Trace(1)
 	})
 	e.R.AddPart(ev.Part{Name: "track-counts-at-the-header-limit", Enumerated: "--track 32767, 32768, 32769, 65534, 65535, 65536, 65537, 70000, 131071 (the header field has 16 bits), in-process and real binary: refused, or a strictly well-formed file with exactly that many chunks", Executions: int64(len(big)), Exhaustive: true})
+	// the file written with -o, onto nothing and onto an existing longer file: the chunk lengths add up to the file
+	var ocases []playCase
+	for _, n := range []int{1, 3} {
+		ocases = append(ocases, playCase{Path: "cli", Cfg: writeCfg{Tracks: n}, Insts: []refplay.Inst{shapes[0], {Values: one()}, shapes[1]}})
+	}
+	mc.ParFor(2*len(ocases), func(i int) {
+		c := ocases[i/2]
+		existing := i%2 == 1
+		dir, err := os.MkdirTemp(e.Scratch, "c08o")
+		if err != nil {
+			panic(err)
+		}
+		defer os.RemoveAll(dir)
+		out := filepath.Join(dir, "out.mid")
+		if existing {
+			os.WriteFile(out, bytes.Repeat([]byte("MTrk stale bytes of an earlier, longer file "), 400), 0o644)
+		}
+		r := cli.Run(cli.Opt{Stdin: []byte(refplay.YAML(c.Insts))}, append(append([]string{"write"}, c.Cfg.args()...), "-o", out)...)
+		e.R.Eval(1)
+		b, rerr := os.ReadFile(out)
+		if !r.OK() || rerr != nil {
+			c.fill()
+			e.R.Fail(ev.Fail{Class: "C08/output-file", Msg: fmt.Sprintf("crd write -o FILE (existing=%v) fails: %s %v", existing, firstLine(r.Stderr), rerr), Kind: "play", Case: &c})
+			return
+		}
+		if _, err := smf.Parse(b); err != nil {
+			c.fill()
+			e.R.Fail(ev.Fail{Class: "C08/malformed/output-file", Msg: fmt.Sprintf("the file written with -o (onto an existing longer file: %v) is malformed: %v", existing, err), Kind: "play", Case: &c})
+		}
+	})
+	e.R.AddPart(ev.Part{Name: "output-file", Enumerated: "crd write -o FILE for 1 and 3 tracks, FILE absent and FILE an existing longer file: the bytes of FILE parse strictly (nothing after the last chunk)", Executions: int64(2 * len(ocases)), Exhaustive: true})
 	runYAMLForms(e, "C08")
 	runLong(e, 16, func(c *playCase) {
 		for _, n := range []int{1, 3} {
